@@ -211,7 +211,45 @@ CHECKS["C08"] = _e1("C08", "Generated abandonment (Discard, conflict, failing Up
     "any read returning a token of a transaction that never committed; misuse calls must return the documented error (any applicable one) and Get not-found; Update must return the closure's own error; View/Update after Close must return ErrDBClosed without running the closure.",
     "an abandoned write set (discard with writes / failed closure after writes) in a program that flushed and then reopened or compacted.", 45, 1500)
 
+_E2_GEN = ("rapid draws a workload (Config with MemtableByteThreshold 60..400, ImmutableBuffer 0..3, block 1/60/4096, "
+           "L0TargetNum 1..2, LevelRatio 1..2 so that flushes and multi-level compactions happen; 6..12 trap-pool keys; 12..45 "
+           "transactions of 1..5 Set/Delete with unique value tokens, deletes only of existing keys; Close at the end in half "
+           "of the cases; a follow-up workload). A child process built with the file-system interposer (go build -overlay on "
+           "package os: every mutating os call on the DB directory is seen before it starts and after it returned) runs it "
+           "with the real background flusher and, in snapshot mode, stores an image of the directory immediately before EVERY "
+           "intercepted operation (= the state a process crash at that instant leaves: every completed operation persisted, "
+           "the next one not started) together with the length of the CALL/ACK log at that instant and, per file, the "
+           "lengths covered by a completed fsync. Every image is recovered by Open in a FRESH child process. ")
+
+def _e2(prop, text, judged, nontriv, q, th):
+    return dict(
+        level="fault_enumeration",
+        engine="crash",
+        technique="fault injection by file-system interposition (os overlay): crash image before every fs operation of generated workloads, recovery in a fresh process, durability oracle over the ack log",
+        design_ref="DESIGN.md §5, §7 " + prop,
+        rule=_E2_GEN + judged + " Non-trivial: " + nontriv + " distinct = (workload hash, crash index, variant).",
+        assumptions=["process-crash model: every completed file-system operation persists, directory operations are durable and ordered",
+                     "one committing goroutine (acks are totally ordered); concurrent committers are covered by C12",
+                     "crash points are exhaustive per executed run; the interleaving of foreground and flusher operations varies from run to run"],
+        level_text=text,
+        level_note="trusted: the os overlay (11 wrapped entry points, each asserted to patch exactly once), the ack log written with raw write(2), crashlib's allowed-value oracle",
+        quick=[dict(pkg="crash", test="Test" + prop, shards=16, checks=q, timeout=900, vworker=True, shrinktime="5s")],
+        thorough=[dict(pkg="crash", test="Test" + prop, shards=16, checks=th, timeout=6000, vworker=True, shrinktime="5s")],
+    )
+
+CHECKS["C03"] = _e2("C03", "Systematic crash injection: all crash points of every generated run, crash sequences (crash again at every operation of a recovery), real SIGKILL cross-checks.",
+    "Judged: (a) Open returns nil, no panic, exit 0; (b) every key reads the value of the last ACKed transaction that wrote it, or that of the transaction in flight at the crash; (c) nothing else; (d) on every n-th image the recovered store runs the follow-up workload, Closes, is reopened and must show the follow-up writes on top of what it showed after recovery. A generated subset of images is recovered under the interposer again and every image of THAT recovery is judged too (crash sequences); a generated sample of crash indices is re-run with a real SIGKILL.",
+    "the image still holds a wal (acknowledged data not yet in a table) or the crash fell into flush / compaction / recovery / Close.", 4, 120)
+CHECKS["C04"] = _e2("C04", "Crash injection with multi-key transactions; all-or-nothing oracle on the transaction in flight at the crash.",
+    "Judged: for the transaction whose Commit had been called but had not returned at the crash, the keys on which its effect is observable read its new value on all of them or on none (workloads are biased to 2..5-key transactions; thresholds make commits straddle memtable rotations).",
+    "the crash fell while the Commit of a transaction that wrote >= 2 keys was in progress (any goroutine's operation between its CALL and ACK).", 6, 150)
+CHECKS["C14"] = _e2("C14", "Crash injection plus loss of unsynced tails: every image whose files have bytes beyond their last completed fsync is additionally cut.",
+    "Judged: the C03 oracles (a)(b)(c)(d) on images in which files with bytes written after their last completed fsync were truncated: to the synced length (all such files at once), and per file to synced+{0,1,7,8,9}, written-{1,2,8,9}, the middle and 8 drawn positions (thorough: every length when the tail is <= 256 bytes). A failure counts for C14 only if the uncut image passes.",
+    "at least one byte was cut (always, by construction).", 2, 40)
+
 ENGINES = [
+    {"name": "crash", "path": "harness/checks/crash (+ harness/cmd/vworker, harness/fsx, drv/fsoverlay.py)", "serves_properties": ["C03", "C04", "C14"],
+     "kind_free_text": "crash-point enumeration: child worker under a file-system interposer (os overlay), snapshot image before every fs operation, recovery in fresh processes, ack-log durability oracle, unsynced-tail truncation"},
     {"name": "dbsm", "path": "harness/checks/dbsm", "serves_properties": ["C01", "C02", "C05", "C06", "C07", "C08"],
      "kind_free_text": "deterministic in-process DB state machine: generated Program interpreted against the real DB and the MVCC+SSI model, flusher held at verifhook gates, porcupine as history oracle"},
     {"name": "lvl", "path": "harness/checks/lvl", "serves_properties": ["C09", "C10", "C16"],
